@@ -443,6 +443,23 @@ where
     L: Log
 {
     pub fn save(&mut self, trailer: &mut Trailer) -> Result<&[u8]> {
+        // a save that fails half-way must leave the storage as it was, so that the caller can
+        // replace the offending object and try again
+        let refs_before = self.refs.clone();
+        let len_before = self.backend.len();
+        match self.save_inner(trailer) {
+            Ok(()) => Ok(&self.backend),
+            Err(e) => {
+                let known = refs_before.len() as ObjNr;
+                self.refs = refs_before;
+                self.backend.truncate(len_before);
+                // objects allocated by the failed attempt itself (info dictionary, xref stream)
+                self.changes.retain(|&id, _| id < known);
+                Err(e)
+            }
+        }
+    }
+    fn save_inner(&mut self, trailer: &mut Trailer) -> Result<()> {
         // writing the trailer generates another id for the info dictionary
         trailer.size = (self.refs.len() + 2) as _;
         let trailer_dict = trailer.to_dict(self)?;
@@ -483,7 +500,7 @@ where
         self.cache.clear();
         *trailer = Trailer::from_dict(trailer_dict, &self.resolver())?;
 
-        Ok(&self.backend)
+        Ok(())
     }
 }
 
